@@ -8,13 +8,13 @@ ROOT = os.path.normpath(os.path.join(os.path.dirname(os.path.abspath(__file__)),
 TABLE = {
  'C01': ('reference-model monitor: independent Gauss-Legendre reference assembler + semantic interpreter of generated forms, run against compiled assemblers',
          'Runtime monitoring: random well-formed variational forms over the documented grammar are compiled for real and every assembled entry is compared with an independent reference assembler (own B-spline/geometry evaluation, own interpreter of the form AST); accepted forms must build, load and assemble. Held on the generated programs only.',
-         'Trusted: numpy linear algebra, the harness reference evaluators (refmodels), gcc/Cython toolchain. Covers Linux/gcc only.', '2/C01'),
+         'Trusted: numpy linear algebra, the harness reference evaluators (refmodels, forms.refasm), gcc/Cython toolchain. Covers Linux/gcc only. update() of updatable fields is exercised too; one open finding (quantities derived from an updated field are not recomputed) is listed by mechanism. Thorough adds an ASan/UBSan build with instrumented JIT modules.', '2/C01, 6'),
  'C02': ('reference-model monitor: exact rational Cox-de Boor oracle on every evaluation route (+ASan/UBSan build in thorough)',
          'Runtime monitoring: every evaluation route is compared pointwise with an exact rational Cox-de Boor recursion on generated knot vectors and points (knots, ends, adjacent floats), with exact structural checks (non-negativity, locality, sums).',
          'Trusted: Python fractions; tolerance is a forward error bound of the recursion. Thorough adds an ASan/UBSan build of bspline_cy.', '2/C02'),
  'C03': ('reference-model monitor: level-wise Galerkin restriction computed from exact knot-insertion matrices and tensor-product assembly',
          'Runtime monitoring: hierarchical matrices/vectors assembled over spaces from generated refinement histories are compared entrywise with the definition (finer-level quadrature) built from independent representation matrices; THB congruence and symmetric/general agreement checked.',
-         'Trusted: tensor-product assembly on each level (property C01), exact knot insertion reference, support-based shadow model of the space (C04).', '2/C03'),
+         'Trusted: tensor-product assembly on each level (property C01), exact knot insertion reference. Histories include empty intermediate levels, live mark sets, read-only queries between refinements and the truncate marking; one open finding (truncate marking with finite disparity) is listed by mechanism.', '2/C03, 6'),
  'C04': ('invariant hooks (icontract postconditions on HSpace.refine/__init__) + support-based shadow model',
          'Runtime monitoring: postconditions attached from the harness to the real HSpace mutators rebuild the expected state from a shadow model after every refinement call (exhaustive short histories on small meshes, random long ones) and check tiling, activity rule, independence, THB partition of unity, transforms, disparity and incidence.',
          'Trusted: the shadow model (region sets by definition), numpy rank computations. Contract-evaluation counters must be positive.', '2/C04'),
@@ -29,10 +29,10 @@ TABLE = {
          'Trusted: refmodels evaluator, numpy.', '2/C07'),
  'C08': ('differential monitor across configurations + bitwise schedule oracle across thread counts (+TSan/ASan builds in thorough)',
          'Runtime monitoring: one canonical dense result per (form, space, inputs); every format/layout/symmetry/subset/update/reuse configuration is mapped to it and compared; raw results must be bitwise equal for thread counts 1..16 and chunkings. ThreadSanitizer on the thread-pool path in thorough.',
-         'Trusted: canonical configuration (tied to C01). OpenMP main-vs-worker races are out of reach of TSan (libgomp uninstrumented); covered only by the bitwise oracle.', '2/C08'),
+         'Trusted: canonical configuration (tied to the C01 reference assembler in every case). OpenMP main-vs-worker races are out of reach of TSan (libgomp uninstrumented); covered only by the bitwise oracle. One open finding (update_params leaves derived constants stale) is listed by mechanism.', '2/C08, 6'),
  'C09': ('reference-model monitor: exact rational integrals of piecewise polynomials; spectral/sum identities',
          'Runtime monitoring: 1D bilinear-form matrices are compared with exact rational integrals, Kronecker/generic/string/predefined paths are compared with each other, and SPD/kernel/total-measure identities are checked on generated spaces; the low-rank assembler is held to a multiple of its tolerance.',
-         'Trusted: Python fractions, numpy eigvalsh.', '2/C09'),
+         'Trusted: Python fractions, numpy eigvalsh. One open finding (random premature stop of the cross approximation in the low-rank assembler) is matched only when the deviation does not recur on repetition.', '2/C09, 6'),
  'C10': ('invariant hook (icontract postcondition on RestrictedLinearSystem.__init__) + algebraic oracles + reference trace evaluation',
          'Runtime monitoring: a postcondition on the real constructor checks partition, restricted system and value placement for every constructed system (exhaustive orders of small index sets, random otherwise); boundary/initial conditions are checked by evaluating the trace with an independent evaluator.',
          'Trusted: geometry evaluation (C07), numpy solves; residual tolerance scaled by the condition number.', '2/C10'),
@@ -44,7 +44,7 @@ TABLE = {
          'Trusted: dense numpy solves. One open finding (dirk34 tableau) listed by mechanism.', '2/C12'),
  'C13': ('trace monitor on the compile cache (request/response recorded by replacing compile_cython_module) + key-soundness on mutation-neighbour pairs + freshness by normal-form comparison',
          'Runtime monitoring: for mutation-neighbour pairs of forms equal hash with different generated code is the refutation; request sequences run through the real compile_vform with a recording stub compiler and each response source must equal the generated source of the request; shipped assemblers are regenerated under several hash seeds and compared.',
-         'Trusted: the statement-order normal form used to compare generated sources.', '2/C13'),
+         'Trusted: the normal form of generated sources (lib/forms/canon.py) and, where normal forms differ, the tree interpreter of C06 executing both finalized programs under random environments (the generator factors one form differently from run to run).', '2/C13, 6'),
  'C14': ('invariant hook (union-find shadow fed by recorded join_dofs calls, checked after every join) + exhaustive join orders + conforming-split differential',
          'Runtime monitoring: a union-find shadow observes every join; after each join and after finalize the class structure, numbering and patch-to-global matrices are compared with it, exhaustively over join orders of small patch complexes; glued systems are compared with undivided ones.',
          'Trusted: union-find shadow; undivided assembly (C01).', '2/C14'),
@@ -59,13 +59,13 @@ TABLE = {
          'Trusted: refmodels evaluator; mass/collocation condition numbers computed densely.', '2/C17'),
  'C18': ('history + executable model: dense numpy shadow carried through random operation sequences',
          'Runtime monitoring: every tensor object carries a dense shadow; random operation sequences are applied to both and compared after each step; approximation guarantees are checked against the requested tolerances.',
-         'Trusted: numpy dense arithmetic; seeded numpy.random for the randomized algorithms.', '2/C18'),
+         'Trusted: numpy dense arithmetic; seeded numpy.random for the randomized algorithms. One open finding (random premature stop of aca_3d) is matched only when the deviation does not recur with other random draws.', '2/C18, 6'),
  'C19': ('invariant hooks: icontract postconditions on make_knots and KnotVector.findspan; queries vs definitions',
          'Runtime monitoring: postconditions attached to the real make_knots/findspan are evaluated over an exhaustive (p,n,mult) family and random intervals; mesh/support/Greville/refine/equality/derivative queries are compared with definitions computed from the raw knots (exact rationals where needed).',
          'Trusted: Python fractions. Contract-evaluation counters must be positive.', '2/C19'),
  'C20': ('fault enumeration: fresh subprocesses per trial, crash points by guarded hook and SIGKILL, file faults on the files the build writes (from strace), concurrent compilers behind a barrier, inotify/digest checker for overwrites',
          'Fault enumeration at runtime: every trial is a fresh process with a private cache directory; compilation is interrupted at named stages and random times, every file the build writes is truncated/deleted/garbled singly and in sequences, 2..16 processes race on the same and distinct forms; exit status, signal and assembled matrix are the observables.',
-         'Trusted: strace-derived list of written files; the reference matrix. Unbounded crash points are sampled, not enumerated.', '2/C20'),
+         'Trusted: strace-derived list of written files; the reference matrix (C01 reference assembler). Unbounded crash points (kill times) are sampled, the 5 hook stages and the file-fault classes are enumerated. One open finding (published module truncated into a loadable segment: SIGBUS) is listed by mechanism.', '2/C20, 6'),
 }
 
 NOT_BUILT_REASON = 'check not built yet in this session (runtime-monitoring design exists in DESIGN.md section 2); not claimed until its monitor runs silently on the unchanged tree'
